@@ -72,6 +72,7 @@ pub fn length_sweep(ctx: &mut Ctx) {
     nested_same_kind_probes(ctx);
     every_operator_as_element_probes(ctx);
     hash_twin_probes(ctx);
+    relation_probes(ctx);
     stale_output_probes(ctx);
     if prop == "C02" || prop == "C06" || prop == "C04" {
         return;
@@ -1602,6 +1603,134 @@ pub fn hash_twin_probes(ctx: &mut Ctx) {
                 for r in rules {
                     ctx.check("hash-colliding-keys", &r, &d);
                 }
+            }
+        }
+    }
+}
+
+/// Relations BETWEEN the inputs of one call (round 21, added on my own review before the round's reports were
+/// read): the data IS the rule (or holds it), the same reference stands in every operand position, a literal
+/// operand of the rule equals the data it is compared / combined with, the data's keys are spelled like operator
+/// names and like the rule's own string literals. The result depends on the VALUES only: nothing may be decided by
+/// identity, by equal spelling of two operands, or by a data key that happens to name an operator.
+pub fn relation_probes(ctx: &mut Ctx) {
+    let prop = ctx.prop.clone();
+    let ops_of: &[&str] = match prop.as_str() {
+        "C02" | "C03" | "C04" => &crate::refmodel::OPS,
+        "C05" | "C06" => &["if", "?:", "and", "or", "!", "!!", "filter", "all", "some", "none"],
+        "C07" => &["==", "!="],
+        "C08" => &["===", "!=="],
+        "C09" => &["<", "<=", ">", ">="],
+        "C10" => &["+", "-", "*", "/", "%", "max", "min"],
+        "C11" => &["var"],
+        "C12" => &["missing", "missing_some"],
+        "C13" => &["map", "filter", "reduce"],
+        "C14" => &["all", "some", "none"],
+        "C15" => &["merge", "in"],
+        "C16" => &["cat", "substr"],
+        _ => return,
+    };
+    // (a) the rule applied to itself, to a list / record holding it, and to its own operand list
+    for k in ops_of {
+        if !ctx.mine() {
+            continue;
+        }
+        for n in 0..=3usize {
+            if !crate::refmodel::arity_ok(k, n) {
+                continue;
+            }
+            ctx.edge();
+            let args = crate::spaces::c03::benign(k, n);
+            let mut rules = vec![al::op(k, args.clone())];
+            // the same operator reading the data (= the rule) through every kind of whole-data reference
+            for whole in [json!({"var": ""}), json!({"var": k}), json!({"var": format!("{}.0", k)}), json!({"var": [format!("{}.1", k), "dflt"]}), json!({"var": "0"})] {
+                for pos in 0..n {
+                    let mut a = args.clone();
+                    a[pos] = whole.clone();
+                    rules.push(al::op(k, a));
+                }
+            }
+            for r in rules {
+                let datas = [r.clone(), json!([r.clone()]), json!({"a": r.clone()}), Value::Array(args.clone()), json!({*k: args.clone()}), json!({*k: 1, "a": 2})];
+                for d in &datas {
+                    ctx.check("relation:rule-as-data", &r, d);
+                }
+            }
+        }
+    }
+    // (b) data whose keys are operator names and whose values look like that operator's operands
+    if ["C02", "C04", "C11", "C12", "C13", "C14"].contains(&prop.as_str()) {
+        let mut m = serde_json::Map::new();
+        for k in crate::refmodel::OPS {
+            m.insert(k.to_string(), json!([k, 1]));
+        }
+        let d = Value::Object(m);
+        let rows: Vec<Value> = crate::refmodel::OPS.iter().map(|k| json!({*k: [1, 2], "name": k})).collect();
+        let drows = json!({"rows": rows, "var": "var", "missing": ["var"], "if": [true, 1, 2]});
+        for k in crate::refmodel::OPS {
+            if !ctx.mine() {
+                continue;
+            }
+            ctx.edge();
+            let rules: Vec<(Value, &Value)> = match prop.as_str() {
+                "C12" => vec![(json!({"missing": [k, format!("{}.0", k), format!("{}.2", k), "zz"]}), &d), (json!({"missing_some": [2, [k, "zz", format!("{}.5", k)]]}), &d), (json!({"missing": {"var": "missing"}}), &drows)],
+                "C13" => vec![(json!({"map": [{"var": "rows"}, {"var": k}]}), &drows), (json!({"filter": [{"var": "rows"}, {"var": k}]}), &drows), (json!({"reduce": [{"var": "rows"}, {"cat": [{"var": "accumulator"}, {"var": format!("current.{}.0", k)}]}, ""]}), &drows)],
+                "C14" => vec![(json!({"all": [{"var": "rows"}, {"var": k}]}), &drows), (json!({"some": [{"var": "rows"}, {"===": [{"var": "name"}, k]}]}), &drows), (json!({"none": [{"var": k}, {"===": [{"var": ""}, k]}]}), &d)],
+                _ => vec![(json!({"var": k}), &d), (json!({"var": [k, "dflt"]}), &d), (json!({"var": format!("{}.0", k)}), &d), (json!({"var": {"var": format!("{}.0", k)}}), &d), (json!({"cat": [{"var": k}, "|", {"var": "var"}]}), &drows), (json!({"var": {"var": "var"}}), &drows)],
+            };
+            for (r, dd) in rules {
+                ctx.check("relation:operator-named-keys", &r, dd);
+            }
+        }
+    }
+    // (c) the same reference in every operand position, and a literal operand equal to the data it meets
+    if !["C04", "C07", "C08", "C09", "C10", "C15", "C16"].contains(&prop.as_str()) {
+        return;
+    }
+    let mut vals = al::v1_plain();
+    vals.extend(al::numbers_small());
+    vals.extend(al::s_num().into_iter().step_by(3));
+    vals.extend(al::wrapped_scalars().into_iter().step_by(2));
+    let vals = al::dedup(vals);
+    let bin: &[&str] = match prop.as_str() {
+        "C04" => &["==", "===", "<=", "-", "/", "%", "max", "in", "merge", "cat", "substr"],
+        "C15" => &["in", "merge"],
+        "C16" => &["cat", "substr"],
+        _ => ops_of,
+    };
+    for v in &vals {
+        if !ctx.mine() {
+            continue;
+        }
+        let da = json!({"a": v, "b": [v], "c": [[v]], "s": crate::refmodel::str_form(v)});
+        for k in bin {
+            ctx.edge();
+            let a = json!({"var": "a"});
+            let w = json!({"var": ""});
+            let mut cases: Vec<(Value, Value)> = vec![
+                (al::op(k, vec![a.clone(), a.clone()]), da.clone()),
+                (al::op(k, vec![w.clone(), w.clone()]), v.clone()),
+                (al::op(k, vec![json!({"if": [true, a]}), json!({"or": [a, a]})]), da.clone()),
+                (al::op(k, vec![a.clone(), json!({"var": "b"})]), da.clone()),
+                (al::op(k, vec![json!({"var": "b"}), a.clone()]), da.clone()),
+                (al::op(k, vec![a.clone(), json!({"var": "s"})]), da.clone()),
+                (al::op(k, vec![json!({"var": "b"}), json!({"var": "c"})]), da.clone()),
+                (al::op(k, vec![json!({"var": "b"}), json!({"var": "b"})]), da.clone()),
+            ];
+            if crate::refmodel::arity_ok(k, 3) {
+                cases.push((al::op(k, vec![a.clone(), a.clone(), a.clone()]), da.clone()));
+                cases.push((al::op(k, vec![w.clone(), w.clone(), w.clone()]), v.clone()));
+            }
+            if !al::is_operation_shaped(v) {
+                cases.push((al::op(k, vec![v.clone(), w.clone()]), v.clone()));
+                cases.push((al::op(k, vec![w.clone(), v.clone()]), v.clone()));
+                cases.push((al::op(k, vec![v.clone(), a.clone()]), da.clone()));
+                if crate::refmodel::arity_ok(k, 3) {
+                    cases.push((al::op(k, vec![v.clone(), w.clone(), v.clone()]), v.clone()));
+                }
+            }
+            for (r, d) in cases {
+                ctx.check("relation:same-reference", &r, &d);
             }
         }
     }
